@@ -23,13 +23,23 @@ theorem C10.honoured_at_least (H : List UInt8 → List UInt8) (s : TokenServer) 
     (issued used : Nat) (hI : s.interval > 0) (h1 : issued ≤ used)
     (h2 : used ≤ issued + s.maxDelta * s.interval) :
     s.valid H (s.create H ip issued) ip used = true := by
-  sorry
+  rw [valid_eq_true_iff]
+  have hle : issued / s.interval ≤ used / s.interval := Nat.div_le_div_right h1
+  have hub : used / s.interval ≤ issued / s.interval + s.maxDelta := by
+    have := Nat.div_le_div_right (c := s.interval) h2
+    rwa [Nat.add_mul_div_right _ _ hI] at this
+  refine ⟨used / s.interval - issued / s.interval, Nat.sub_le_iff_le_add'.mpr hub, ?_⟩
+  unfold TokenServer.create
+  rw [sub_mul_div_interval, Nat.sub_sub_self hle]
 
 /-- … hence for at least 10 minutes with the server's constants. -/
 theorem C10.honoured_10_minutes (H : List UInt8 → List UInt8) (secret ip : List UInt8)
     (issued used : Nat) (h1 : issued ≤ used) (h2 : used ≤ issued + 10 * minute) :
     (TokenServer.ofGen secret).valid H ((TokenServer.ofGen secret).create H ip issued) ip used = true := by
-  sorry
+  have hc := C10.window_constants
+  apply C10.honoured_at_least H (TokenServer.ofGen secret) ip issued used hc.2.2 h1
+  show used ≤ issued + Gen.tokenMaxDelta * Gen.tokenIntervalNs
+  omega
 
 /-- A token is rejected from `maxDelta + 1` whole intervals after issue on. -/
 theorem C10.expires (H : List UInt8 → List UInt8) (hH : Function.Injective H) (s : TokenServer)
@@ -37,34 +47,51 @@ theorem C10.expires (H : List UInt8 → List UInt8) (hH : Function.Injective H) 
     (hu : used / s.interval < 2 ^ 64)
     (h : used ≥ issued + (s.maxDelta + 1) * s.interval) :
     s.valid H (s.create H ip issued) ip used = false := by
-  sorry
+  rw [valid_eq_false_iff]
+  intro d hd heq
+  have hlb : issued / s.interval + (s.maxDelta + 1) ≤ used / s.interval := by
+    have := Nat.div_le_div_right (c := s.interval) h
+    rwa [Nat.add_mul_div_right _ _ hI] at this
+  unfold TokenServer.create at heq
+  have h3 := (preimage_inj rfl (hH heq)).2.1
+  rw [sub_mul_div_interval] at h3
+  have := be64_inj (by omega) (by omega) h3
+  omega
 
 /-- … hence never later than 15 minutes after issue with the server's constants. -/
 theorem C10.expires_15_minutes (H : List UInt8 → List UInt8) (hH : Function.Injective H)
     (secret ip : List UInt8) (issued used : Nat) (hu : used < 2 ^ 63)
     (h : used ≥ issued + 15 * minute) :
     (TokenServer.ofGen secret).valid H ((TokenServer.ofGen secret).create H ip issued) ip used = false := by
-  sorry
+  have hc := C10.window_constants
+  apply C10.expires H hH (TokenServer.ofGen secret) ip issued used hc.2.2
+  · show used / Gen.tokenIntervalNs < 2 ^ 64
+    exact Nat.lt_of_le_of_lt (Nat.div_le_self _ _) (by omega)
+  · show used ≥ issued + (Gen.tokenMaxDelta + 1) * Gen.tokenIntervalNs
+    omega
 
 /-- A token issued to one IP is rejected for every other IP (16-byte forms). -/
 theorem C10.other_ip_rejected (H : List UInt8 → List UInt8) (hH : Function.Injective H) (s : TokenServer)
     (ip ip' : List UInt8) (issued used : Nat) (hl : ip.length = 16) (hl' : ip'.length = 16)
     (hne : ip ≠ ip') :
     s.valid H (s.create H ip issued) ip' used = false := by
-  sorry
+  rw [valid_eq_false_iff]
+  intro d _ heq
+  unfold TokenServer.create at heq
+  exact hne (preimage_inj (hl.trans hl'.symm) (hH heq)).1
 
 /-- Validity means exactly: the token is the one this server creates for this
 IP in the current interval or one of the `maxDelta` previous ones. Any other
 string (altered, truncated, extended, issued under another secret) is rejected. -/
 theorem C10.valid_iff (H : List UInt8 → List UInt8) (s : TokenServer) (tok ip : List UInt8) (now : Nat) :
     s.valid H tok ip now = true ↔ ∃ d, d ≤ s.maxDelta ∧ tok = s.create H ip (now - d * s.interval) := by
-  sorry
+  exact valid_eq_true_iff H s tok ip now
 
 /-- The token does not depend on the source port (only the 16-byte IP enters),
 and an IPv4 address and its v4-mapped form share tokens. -/
 theorem C10.v4_mapped_same (ip4 : List UInt8) (h : ip4.length = 4) :
     to16 ([0,0,0,0,0,0,0,0,0,0,0xff,0xff] ++ ip4) = to16 ip4 := by
-  sorry
+  simp [to16, h]
 
 /-- A server with a different secret does not accept the token. -/
 theorem C10.other_secret_rejected (H : List UInt8 → List UInt8) (hH : Function.Injective H)
@@ -72,12 +99,44 @@ theorem C10.other_secret_rejected (H : List UInt8 → List UInt8) (hH : Function
     (hp : s.interval = s'.interval ∧ s.maxDelta = s'.maxDelta) (hne : s.secret ≠ s'.secret)
     (hl : s.secret.length = s'.secret.length) :
     s'.valid H (s.create H ip issued) ip used = false := by
-  sorry
+  have _ := hp
+  have _ := hl
+  rw [valid_eq_false_iff]
+  intro d _ heq
+  unfold TokenServer.create at heq
+  exact hne (preimage_inj rfl (hH heq)).2.2
+
+/-- Sharp form (added): with injective `H`, a token created at `issued` is valid at a later
+`used` exactly when at most `maxDelta` interval boundaries have been crossed. -/
+theorem C10.valid_created_iff (H : List UInt8 → List UInt8) (hH : Function.Injective H) (s : TokenServer)
+    (ip : List UInt8) (issued used : Nat) (hu : used / s.interval < 2 ^ 64) (h1 : issued ≤ used) :
+    s.valid H (s.create H ip issued) ip used = true ↔
+      used / s.interval - issued / s.interval ≤ s.maxDelta := by
+  have hle : issued / s.interval ≤ used / s.interval := Nat.div_le_div_right h1
+  rw [valid_eq_true_iff]
+  constructor
+  · rintro ⟨d, hd, heq⟩
+    unfold TokenServer.create at heq
+    have h3 := (preimage_inj rfl (hH heq)).2.1
+    rw [sub_mul_div_interval] at h3
+    have := be64_inj (by omega) (by omega) h3
+    omega
+  · intro hd
+    refine ⟨used / s.interval - issued / s.interval, hd, ?_⟩
+    unfold TokenServer.create
+    rw [sub_mul_div_interval, Nat.sub_sub_self hle]
 
 /-! Non-vacuity: a concrete injective `H` (identity) and instants meeting the hypotheses. -/
 example : (TokenServer.ofGen [1,2,3]).valid id ((TokenServer.ofGen [1,2,3]).create id [1,2,3,4] 1000000000000) [1,2,3,4]
     (1000000000000 + 10 * minute) = true := by decide
 example : (TokenServer.ofGen [1,2,3]).valid id ((TokenServer.ofGen [1,2,3]).create id [1,2,3,4] 1000000000000) [1,2,3,4]
     (1000000000000 + 15 * minute) = false := by decide
+example : (TokenServer.ofGen [1,2,3]).valid id
+    ((TokenServer.ofGen [1,2,3]).create id [0,0,0,0,0,0,0,0,0,0,0xff,0xff,1,2,3,4] 1000000000000)
+    [0,0,0,0,0,0,0,0,0,0,0xff,0xff,1,2,3,5] 1000000000000 = false := by decide
+example : (TokenServer.ofGen [1,2,4]).valid id ((TokenServer.ofGen [1,2,3]).create id [1,2,3,4] 1000000000000)
+    [1,2,3,4] 1000000000000 = false := by decide
+example : to16 [0,0,0,0,0,0,0,0,0,0,0xff,0xff,1,2,3,4] = to16 [1,2,3,4] := by decide
+example : Function.Injective (id : List UInt8 → List UInt8) := fun _ _ h => h
 
 end Dht
